@@ -38,4 +38,6 @@ def main : IO Unit := do
     loop h out ({} : Kern.State) Kern.driverStep {}
   | some (.list [.atom "model", .atom "sort"]) =>
     loop h out ({} : NameSort.DState) NameSort.driverStep {}
+  | some (.list [.atom "model", .atom "persist"]) =>
+    loop h out ({} : Persist.PState) Persist.driverStep {}
   | _ => out.putStrLn "unknown-model"
